@@ -33,7 +33,7 @@ TRACK = ["skfem.generic_utils:hash_args", "skfem.mapping.mapping_isoparametric:M
          "skfem.utils:solver_direct_scipy", "skfem.utils:solver_eigen_scipy_sym", "skfem.mesh.mesh:Mesh.refined",
          "skfem.mesh.mesh:Mesh._mapping"]
 REQUIRED_MONITORS = ["pooled-equals-fresh", "operands-unchanged"]
-REQUIRED_REACH = ["warm:element-on-second-mesh", "warm:global-element-on-second-mesh", "warm:lbasis-same-count-other-points",
+REQUIRED_REACH = ["warm:element-on-second-mesh", "warm:global-element-on-second-mesh", "warm:global-element-on-transformed-copy", "warm:lbasis-same-count-other-points",
                   "warm:jacobian-cache-same-bytes-other-shape", "warm:jacobian-cache-other-dtype", "warm:kd-tree",
                   "warm:solver-closure-other-size", "warm:solver-closure-per-call-kwargs", "warm:affine-lazy",
                   "warm:basis-reused", "readonly-pass"]
@@ -293,16 +293,27 @@ def run_basis(env, a):
 def op_global(rng, specs):
     kind = str(rng.choice(["tri", "tri", "quad", "line"]))
     mid = str(rng.choice(_mesh_ids(specs, kinds=[kind], unit=True)))
-    return dict(mid=mid, ename=str(rng.choice(GLOBAL_BY_KIND[kind])))
+    return dict(mid=mid, ename=str(rng.choice(GLOBAL_BY_KIND[kind])),
+                derived=str(rng.choice(["none", "none", "scaled", "translated"])))
 
 
 def run_global(env, a):
     import skfem
     m, e = env.mesh(a["mid"]), env.elem(a["ename"])
+    d = m.p.shape[0]
+    if a["derived"] == "scaled":
+        # a transformed copy shares the connectivity array with the pooled mesh
+        m = m.scaled(tuple([1.5] * d)) if d > 1 else m.scaled(1.5)
+    elif a["derived"] == "translated":
+        m = m.translated(tuple([0.25] * d))
     b = skfem.CellBasis(m, e)
-    warm = env.note(("elem", a["ename"]), a["mid"])
+    warm = env.note(("elem", a["ename"]), (a["mid"], a["derived"]))
+    if warm and a["derived"] != "none":
+        env.used.setdefault("__flags__", set()).add("warm:global-element-on-transformed-copy")
     res = [np.array(b.basis[0][0]), np.array(b.basis[-1][0]), b.basis[-1][0].grad, b.dx]
-    return res, [m], {"warm:global-element-on-second-mesh": warm}, ("basis-global", "ElementGlobal.V", warm)
+    return res, [m], {"warm:global-element-on-second-mesh": warm,
+                      "warm:global-element-on-transformed-copy": warm and a["derived"] != "none"}, \
+        ("basis-global", "ElementGlobal.V", warm)
 
 
 def op_lbasis(rng, specs):
@@ -560,7 +571,13 @@ def run_bc(env, a):
         out = list(skfem.penalize(A, b, x=x, D=D))
     else:
         out = [skfem.solve(*skfem.condense(A, b, x=x, D=D))]
-    return out, [A, b, x, D], {}, ("bc:" + a["what"], "operands", False)
+    # the prescribed-values vector and the index set are operands too
+    mutated = []
+    if not np.array_equal(x, np.linspace(1, 2, n)):
+        mutated.append("x")
+    if not np.array_equal(D, np.array([0, n - 1])):
+        mutated.append("D")
+    return out, [A, b, x, D], {"__mutated__": mutated}, ("bc:" + a["what"], "operands", False)
 
 
 OPS = [("basis", op_basis, run_basis, 3), ("global", op_global, run_global, 3), ("lbasis", op_lbasis, run_lbasis, 3),
@@ -622,7 +639,7 @@ def program(ctx, k):
         ctx.check("pooled-equals-fresh", verdict != "different", mech=classify(name, args, detail), op=name, args=args,
                   difference=detail, step=step, readonly=readonly,
                   history=[t[0] + ":" + str(t[1].get("ename", t[1].get("mid", t[1].get("name", "")))) for t in trace[-6:]])
-        ch = changed(before, pre_objs)
+        ch = changed(before, pre_objs) + [("local", nm) for nm in flags.pop("__mutated__", [])]
         ctx.check("operands-unchanged", not ch, mech=f"operand-mutated:{name}:{args.get('what', '')}", op=name, args=args,
                   changed=[str(c) for c in ch[:6]], step=step)
         for fl, val in flags.items():
